@@ -9,6 +9,8 @@ import tempfile
 from fractions import Fraction
 
 from ..core import frac
+from . import _c05cluster
+from . import _c05sexglue
 
 LEVEL = "proof"
 RULE = ("cohorts of 1..8 coverage-file pairs written to a temp dir (sex mix, per-sample depth scale, noise or none, chr / "
@@ -69,6 +71,16 @@ ASSUMPTIONS = ["corrections off for the exact tie (with corrections on the rolli
                "do_cluster: the per-cluster columns log2_i / spread_i are not modelled (k-means membership); checked are "
                "the pooled columns (unchanged, exact oracle), presence / pairing of the cluster columns and, for cohorts "
                "differing only in depth and sex, that every cluster reproduces the pooled profile with spread 0"]
+RULE += ("  Round 5 (op ref_cluster): cohorts of 3..8 samples (two k-means clusters from 6 samples on) through "
+         "do_reference(do_cluster=True, min_cluster_size 1 / 2 / 3), corrections off, every cell of the cohort generator; "
+         "the k-means membership is observed from the real run (spy on cnvlib.cluster.kmeans) and every cell of every "
+         "log2_i / spread_i column is compared with the model's biweight summaries over exactly the member samples; "
+         "non-trivial = at least one cluster column was written.  Three (thorough: eight) further cohorts with inferred "
+         "sexes, a female sample and header-only antitarget files (tag sexglue-*); on every `reference` cohort the sexes "
+         "dictionary do_reference hands to combine_probes (spy) is compared with the model's resolveSexes")
+ASSUMPTIONS.append("round 5: the per-cluster columns ARE modelled (Model/ReferenceExt5Cluster.lean, op ref_cluster) with the "
+                   "k-means membership (PCA, whitening, scipy kmeans2 under the fixed numpy seed) as a parameter observed "
+                   "from the real run; corrections off")
 TRUSTED_EXTRA = ["tabio read/write of .cnn files (C08)", "numpy apply_along_axis / vstack / hstack plumbing",
                  "corrections on (tag corr-*): numpy.random.permutation (MT19937) under the fixed seed, pandas "
                  "rolling(center=True).median, smoothing._width2wing -- as in C04; pyfaidx slicing of the generated genome"]
@@ -341,6 +353,11 @@ def gen_cases(rng, tier):
     # round 4 (own stream, drawn last: everything above stays as it was): corrections ON, exact tie
     r4 = random.Random(rng.getrandbits(32))
     cases += [_cohort_corr(r4, j) for j in range({"quick": 20, "thorough": 80, "search": 30}[tier])]
+    # round 5 (own stream, drawn last): the cluster columns of `reference --cluster`, membership observed
+    r5 = random.Random(rng.getrandbits(32))
+    cases += _c05cluster.gen(r5, _cohort, {"quick": 10, "thorough": 24, "search": 12}[tier])
+    # round 5: inferred sexes with header-only antitarget files (the per-sample override of do_reference)
+    cases += _c05sexglue.gen(r5, _cohort, {"quick": 3, "thorough": 8, "search": 4}[tier])
     return cases
 
 
@@ -735,6 +752,12 @@ def run_impl(case):
         import contextlib
         import io
         quiet = contextlib.redirect_stdout(io.StringIO()) if i.get("cluster") else contextlib.nullcontext()   # (k-means prints)
+        spy = None
+        if op == "ref_cluster":
+            spy = _c05cluster.KmeansSpy()
+            quiet = spy.wrap(quiet)
+        sexspy = _c05sexglue.SexesSpy()
+        quiet = sexspy.wrap(quiet)
         if cli:
             fa = fa_corr
             if cli["fasta"] and not corr:
@@ -788,6 +811,10 @@ def run_impl(case):
                 base = ref.data["log2"].values if c.startswith("log2_") else 0.0
                 dev = max(dev, float(np.max(np.abs(ref.data[c].values - base))) if not ref.data[c].isna().any() else float("inf"))
             out["cluster"] = {"cols": cl, "dev": dev}
+        if spy is not None:
+            out["cluster_full"] = _c05cluster.collect(ref, spy)
+        if sexspy.result() is not None:
+            out["sexes_real"] = sexspy.result()
         return out
     finally:
         shutil.rmtree(d, ignore_errors=True)
@@ -802,6 +829,8 @@ def to_line(case, impl):
     i = case["in"]
     op = case["op"]
     err = isinstance(impl, dict) and "__error__" in impl
+    if op == "ref_cluster":
+        return _c05cluster.to_line(case, impl, _par(i))
     if op == "gc_rmask":
         return {"op": op, "in": {"seq": i["seq"]}}
     if op == "reference_on":
@@ -841,6 +870,8 @@ def _close(a, b, tol=1e-7):
 
 def judge(case, impl, resp):
     op = case["op"]
+    if op == "ref_cluster":
+        return _c05cluster.judge(case, impl, resp)
     if "error" in resp:
         return [], ["model error: " + resp["error"]], None
     out = resp["out"]
@@ -853,6 +884,7 @@ def judge(case, impl, resp):
         if model_err:
             return ["reject_differing_bins"], [], None
         spec = list(resp.get("spec") or [])
+        spec += _c05sexglue.clause(impl, resp)
         rows = impl["rows"]
         dis = []
         cl = impl.get("cluster")
@@ -946,6 +978,8 @@ def judge(case, impl, resp):
 
 def nontrivial(case, impl, resp):
     i = case["in"]
+    if case["op"] == "ref_cluster":
+        return _c05cluster.nontrivial(case, impl, resp)
     if case["op"] == "reference_on" and isinstance(impl, dict) and not impl.get("inferred_ok", True):
         return False
     if case["op"] == "reference" and i.get("corr"):
